@@ -22,7 +22,26 @@ def make_plan(seed: int, tier: str, opts: dict) -> dict:
         ep = driver.gen_episode(r, j, menu=MENU, open_loop=spec["open_loop"], nsteps=r.randint(1, 9), endings=("stop", "stop", "stop2", "none"))
         if r.random() < 0.15:
             ep["nsteps"] = 0  # reset directly followed by stop / stop before anything ran
+        elif r.random() < opts.get("long_p", 0.25):
+            ep["nsteps"] = r.randint(25, 60)  # long episode: backlogs in the event queues need time to build up (DESIGN 6, D3)
+            if ep.get("override"):
+                ep["override"] = [r.random() < 0.5 for _ in range(ep["nsteps"])]
+            if ep.get("slow_user"):
+                ep["slow_user"] = None
         eps.append(ep)
+    if r.random() < opts.get("stop_race_p", 0.3):
+        # "stop directly after run()/step()" family: short episodes, each ended by stop(), mixing strategies, with pre-emption
+        # concentrated on the lines that touch the shared lifecycle fields (this is where D2-like lost wake-ups live)
+        eps = []
+        for j in range(r.choice([2, 3, 4])):
+            ep = driver.gen_episode(r, j, api=r.choice(["run", "run", "gym"]), menu=[({"name": "uniform"}, 2), ({"name": "burst", "q": 12}, 2), ({"name": "pct", "d": 3}, 1)],
+                                    open_loop=spec["open_loop"], nsteps=r.randint(1, 4), endings=("stop",), faults=False, override_p=0.0)
+            ep["fair_k"] = 256
+            eps.append(ep)
+        wall = False
+        race = True
+    else:
+        race = False
     eps[-1]["ending"] = r.choice(["stop", "stop2"])
     for j in range(len(eps) - 1):
         # an episode left running ("none") must be followed by reset(): run() without a stop() continues the old episode (API contract)
@@ -32,6 +51,10 @@ def make_plan(seed: int, tier: str, opts: dict) -> dict:
         eps.insert(0, dict(eps_id=0, api="stop_only", nsteps=0, ending="stop", rtf=0, strategy={"name": "rr"}, sseed=1, fair_k=64))
     plan = dict(spec=spec, seed=seed, episodes=eps, clock="wall" if wall else "sim",
                 line_rate=r.choice([0.0, 0.0025, 0.01, 0.04]) if tier == "thorough" else r.choice([0.0, 0.0, 0.01]))
+    # pre-emption concentrated on the lines that touch the shared lifecycle fields (kernel.hot_lines)
+    plan["hot_rate"] = r.choice([0.0, 0.15, 0.4]) if tier == "thorough" else r.choice([0.0, 0.0, 0.15, 0.4])
+    if race:
+        plan["hot_rate"], plan["line_rate"] = 0.4, 0.0
     return plan
 
 
